@@ -662,8 +662,8 @@ func TestVerifC17_ConfirmationRace(t *testing.T) {
 			nAnn, nReq, withHeader, stagger)
 		wd.setDescribe(func() string { return desc })
 		if vk.KnownOpen(c17SigValidationRace) {
-			vk.Excluded(c17SigValidationRace)
-			rt.Skip("known finding")
+			vk.Excluded(c17SigValidationRace) // the whole scenario has the shape of the known finding
+			return
 		}
 		for rep := 0; rep < reps*4; rep++ {
 			env, err := newC17Env(*DefaultParameters(), "self")
